@@ -275,6 +275,57 @@ Proof.
       (specialize (Hf _ eq_refl); discriminate).
 Qed.
 
+(* the checker of the concurrent family (K lines): silent exactly when no evaluation aborted and no
+   concurrent evaluation answered the opposite of the expected decision *)
+Lemma chk_C12K_sound : forall e nt nf np,
+  chk_C12K e nt nf np = None <->
+  (np = 0%N /\ (e = true -> nf = 0%N) /\ (e = false -> nt = 0%N)).
+Proof.
+  intros e nt nf np. unfold chk_C12K.
+  destruct (N.eqb np 0) eqn:Hp; simpl.
+  - apply N.eqb_eq in Hp. destruct e.
+    + destruct (N.eqb nf 0) eqn:Hf.
+      * apply N.eqb_eq in Hf. split; [intros _; repeat split; auto; discriminate|reflexivity].
+      * apply N.eqb_neq in Hf. split; [discriminate|intros (_ & H & _); elim Hf; auto].
+    + destruct (N.eqb nt 0) eqn:Ht.
+      * apply N.eqb_eq in Ht. split; [intros _; repeat split; auto; discriminate|reflexivity].
+      * apply N.eqb_neq in Ht. split; [discriminate|intros (_ & _ & H); elim Ht; auto].
+  - apply N.eqb_neq in Hp. split; [discriminate|intros (H & _); elim Hp; exact H].
+Qed.
+
+(* counts of the decisions a list of (concurrent) evaluations of one row gave *)
+Fixpoint ncount (b : bool) (ds : list bool) : N :=
+  match ds with
+  | [] => 0%N
+  | d :: ds' => ((if Bool.eqb d b then 1 else 0) + ncount b ds')%N
+  end.
+
+Lemma ncount_zero : forall b ds, ncount b ds = 0%N <-> (forall d, In d ds -> d <> b).
+Proof.
+  intros b ds. induction ds as [|d ds IH]; simpl.
+  - split; [intros _ d []|reflexivity].
+  - destruct (Bool.eqb d b) eqn:Hd.
+    + apply Bool.eqb_prop in Hd. split.
+      * intros H. destruct (ncount b ds); discriminate.
+      * intros H. elim (H d); auto.
+    + apply Bool.eqb_false_iff in Hd. rewrite N.add_0_l, IH. split.
+      * intros H d' [<-|Hin]; auto.
+      * intros H d' Hin. apply H. auto.
+Qed.
+
+(* fed with the counts of the decisions observed for one row and no abort, the checker is silent exactly
+   when every one of them is the decision the model gives for the predicate and that row *)
+Lemma chk_C12K_counts : forall (s : shape) (r : row) (ds : list bool),
+  chk_C12K (evaluate s r) (ncount true ds) (ncount false ds) 0%N = None <->
+  (forall d, In d ds -> d = evaluate s r).
+Proof.
+  intros s r ds. rewrite chk_C12K_sound, !ncount_zero. destruct (evaluate s r); split.
+  - intros (_ & H & _) d Hin. specialize (H eq_refl d Hin). destruct d; congruence.
+  - intros H. repeat split; try discriminate. intros _ d Hin. rewrite (H d Hin). discriminate.
+  - intros (_ & _ & H) d Hin. specialize (H eq_refl d Hin). destruct d; congruence.
+  - intros H. repeat split; try discriminate. intros _ d Hin. rewrite (H d Hin). discriminate.
+Qed.
+
 (* ------------------------------------------------------------------ the code as found (F9 and neighbours) *)
 Definition fx : bytes := [120%N].                      (* "x" *)
 Definition row1 (v : value) : row := [(fx, v)].
